@@ -6,5 +6,8 @@ K3e == <<"prod", "early", "cons">>
 K4 == <<"prod", "filt", "filt", "cons">>
 K1e == <<"eprod">>
 K2e == <<"prod", "eprod">>
+K2h == <<"prod", "cons">>
+K1c == <<"cons">>
+K1x == <<"early">>
 K4e == <<"prod", "filt", "early", "cons">>
 ====
